@@ -56,6 +56,6 @@ def cmdSanitize : P String := do
 
 def handlers : List (String × Handler) :=
   [("gridfile", runP cmdGridFile), ("gridfloat", runP cmdFloat), ("gridtime", runP cmdTime),
-   ("sanitize", runP cmdSanitize)]
+   ("grid_sanitize", runP cmdSanitize)]
 
 end SpiceEv.Cmd.GridFile
